@@ -169,6 +169,9 @@ func runC18(e *env) {
 			e.res.Histogram["prediction:agrees-with-model-of-pinned-Expr-only"]++
 		}
 	}
+	if e.replay == "" {
+		ptKindCoverage(e)
+	}
 	e.res.Histogram["scanner-goroutines-left-total"] = total
 	e.res.Note("scanner goroutines left behind over all sequences: %d", total)
 }
